@@ -14,14 +14,14 @@ from fractions import Fraction
 from .. import symx, terms as T
 from ..frontend import AnalysisError
 from ..poly import Algebra, Poly
-from ..rules import ret_term, find_calls, outcomes, radians_of_angle, D2R
+from ..rules import ret_term, find_calls, outcomes, radians_of_angle, D2R, phi_leaves
 from .. import units, guards, effects
 
 MANIFEST = {
     "level": "other",
-    "technique": "static analysis: symbolic evaluation and term matching for the anomaly relations, polynomial normal form for the vis-viva / phase / node-passage identities with numeric constant relations checked to a stated tolerance, decision table of the mean-anomaly reduction on every linear piece (sign factor of E and anomaly handed to the solver), refusal conditions executed on every class of (e, a) inside the domain, interval bound of both orbit-length closed forms against the AGM value of the elliptic integral, unit inference",
-    "text": "The closed-form relations of the property (true anomaly, reciprocal factor in the node passage, vis-viva products, k = (1 + cos i)/2, Kepler's equation and radius in the node passage, Barker's constant) are decided symbolically for all inputs. The mean anomaly is shown to be reduced modulo 2 pi and folded to [0, pi] with E = +-e0 accordingly for either sign of M and any number of turns, and no closed-form routine refuses arguments inside the domain (circular orbit included). Convergence and the 5e-8 degree residual of the bisection, the half-revolution clause at runtime, are numerical and not decided; the orbit length is decided as far as both closed forms staying within [2 pi b, 2 pi a] and within 1e-4 of the elliptic integral up to the switch.",
-    "note": "Trusted: term/polynomial engine; Gaussian constant k = 0.01720209895 (0.9856076686 deg/day). Undecided: convergence/residual of the Sinnott bisection, orbit length bounds and continuity at e = 0.95.",
+    "technique": "static analysis: symbolic evaluation and term matching for the anomaly relations, polynomial normal form for the vis-viva / phase / node-passage identities with numeric constant relations checked to a stated tolerance, decision table of the mean-anomaly reduction on every linear piece (sign factor of E and anomaly handed to the solver), refusal conditions executed on every class of (e, a) inside the domain, interval bound of both orbit-length closed forms against the AGM value of the elliptic integral, unit inference; the solver loop unrolled to a closed term (the exit test compares a step of constant magnitude with a number) and that term proved, summand by summand, to be the n-step bisection of E - e sin E = m",
+    "text": "The closed-form relations of the property (true anomaly, reciprocal factor in the node passage, vis-viva products, k = (1 + cos i)/2, Kepler's equation and radius in the node passage, Barker's constant) are decided symbolically for all inputs. The mean anomaly is shown to be reduced modulo 2 pi and folded to [0, pi] with E = +-e0 accordingly for either sign of M and any number of turns, and no closed-form routine refuses arguments inside the domain (circular orbit included). That Kepler's equation is solved is proved for every e in [0, 1) and every M at once, in exact real arithmetic: unrolled, the solver's result is pi/2 plus n steps pi/2^(k+1), each with the sign of m - (E_prev - e sin E_prev) at the previous partial sum and the same reduced anomaly m throughout - a bisection of an increasing function from the bracket [0, pi] - so |E - E*| <= pi/2^(n+1) and the residual is at most 360/2^(n+1) degrees (1.05e-8 with today's 34 steps, below the 5e-8 asked); another iteration scheme is reported as not decided, a bisection that stops an order of magnitude too early as a violation. Float rounding inside the loop and the half-revolution clause at runtime are not decided; the orbit length is decided as far as both closed forms staying within [2 pi b, 2 pi a] and within 1e-4 of the elliptic integral up to the switch.",
+    "note": "Trusted: term/polynomial engine; Gaussian constant k = 0.01720209895 (0.9856076686 deg/day). Trusted: monotonicity of E - e sin E for e < 1 and bracket halving (textbook bisection argument, stated in the rule). Undecided: float rounding in the loop, orbit length bounds and continuity at e = 0.95.",
 }
 MOD = "Coordinates"
 
@@ -307,6 +307,128 @@ def anomaly_fold(rep, site, Er):
                                                 "and any number of turns (%d pieces)" % n, obligation=True)
 
 
+def bisect_proof(repo, rep):
+    """R-BISECT.  kepler_equation is evaluated with its loop unrolled; the exit test |e0 - ef| > TOL compares a step of constant
+    magnitude (d * s, s = +-1) with a number, so the loop folds to a fixed number of steps and the eccentric anomaly comes out as one
+    closed term.  The rule proves that this term *is a bisection of g(E) = E - e sin E against the reduced mean anomaly m*:
+        E_n = pi/2 + sum_k c_k pi copysign(1, m - g(E_{k-1})),   c_k = 1/2^(k+1), k = 1..n, no gap, E_{k-1} the partial sum,
+    each sign taken from m - g at the previous iterate with m the same term throughout.  g is increasing for e < 1 (g' = 1 - e cos E
+    >= 1 - e > 0) and the reduced anomaly lies in [0, pi] (R-FOLD), so the root E* of g(E*) = m lies in [0, pi] = [E_0 - pi/2,
+    E_0 + pi/2] and each step halves the bracket: |E* - E_n| <= c_n pi, hence |g(E_n) - m| <= (1 + e) c_n pi < 360 c_n degrees.
+    With the c_n read off the term this bounds the residual of Kepler's equation for every e in [0, 1) and every M at once
+    (exact real arithmetic).  Any other shape - another iteration scheme, a correction step after the loop - is INCONCLUSIVE."""
+    from fractions import Fraction
+    rep.rule("R-BISECT", "the returned eccentric anomaly is the n-step bisection of E - e sin E = m from [0, pi] (closed term after unrolling): "
+                         "residual <= 360 / 2^(n+1) degrees <= 5e-8 for every e in [0, 1) and every M")
+    q = "kepler_equation"
+    site = MOD + "." + q
+    fn = repo.func(MOD, q)
+    names = [a.arg for a in fn.args.args]
+    ECC = T.sym("NUM_E")
+    try:
+        outs = outcomes(repo, MOD, q, arg_terms={names[0]: ECC, names[1]: ("angle", T.sym("MA"))}, unroll=80)
+    except AnalysisError as e:
+        rep.inconcl("R-BISECT", site, "not unrolled: %s" % e)
+        return
+    rets = [o for o in outs if o.kind == "ret"]
+    if len(outs) != 1 or len(rets) != 1 or rets[0].cond != ("bool", True) or rets[0].value[0] != "tuple" or len(rets[0].value) != 3:
+        rep.inconcl("R-BISECT", site, "the solver does not unroll to one closed (E, v) result (%d outcome(s)): iteration count not fixed by constants" % len(outs))
+        return
+    Eang = rets[0].value[1]
+    if Eang[0] != "angle":
+        rep.inconcl("R-BISECT", site, "E is not returned as an Angle")
+        return
+    # the iterate: the sum with the most summands of the form  c * pi [* copysign(1, X)]
+    def summand(x):
+        if x[0] != "mul":
+            return None
+        c = [y for y in x[1:] if y[0] == "num"]
+        cs = [y for y in x[1:] if y[0] == "call" and y[1] == "copysign" and len(y) == 4 and y[2] == T.ONE]
+        pis = [y for y in x[1:] if y == T.PI]
+        if len(c) == 1 and len(pis) == 1 and len(cs) <= 1 and len(x) - 1 == 2 + len(cs) and c[0][1] > 0:
+            return c[0][1], (cs[0] if cs else None)
+        return None
+    best = None
+    seen = set()
+    stack = [Eang]
+    while stack:
+        x = stack.pop()
+        if id(x) in seen or not isinstance(x, tuple):
+            continue
+        seen.add(id(x))
+        if x and x[0] == "add":
+            parts = [summand(y) for y in x[1:]]
+            if all(p is not None for p in parts) and (best is None or len(parts) > len(best[1])):
+                best = (x, parts)
+        if x and x[0] == "call" and x[1] == "copysign":
+            continue                      # earlier iterates live inside the signs: the outermost sum is the returned one
+        stack.extend(y for y in x[1:] if isinstance(y, tuple))
+    if best is None or len(best[1]) < 3:
+        rep.inconcl("R-BISECT", site, "the returned E is not a sum of steps c_k * pi * (+-1)")
+        return
+    parts = sorted(best[1], key=lambda p: -p[0])
+    n = len(parts) - 1
+    if parts[0] != (Fraction(1, 2), None) or any(parts[k][0] != Fraction(1, 2 ** (k + 1)) or parts[k][1] is None for k in range(1, n + 1)):
+        rep.inconcl("R-BISECT", site, "steps are not pi/2, then pi/4, pi/8, ... each with one sign factor")
+        return
+    # whatever multiplies / is added to that sum on the way out must be the fold sign f = +-1 and the radian -> degree factor
+    # (a correction added after the loop would make the returned value something else than E_n)
+    from ..rules import radians_of_angle
+    Er = radians_of_angle(Eang)
+    ok_out = False
+    if Er is not None:
+        fac = list(Er[1:]) if Er[0] == "mul" else [Er]
+        rest = [y for y in fac if y is not best[0]]
+        ok_out = any(y is best[0] for y in fac) and all(symx.const_magnitude(y) == 1.0 or (y[0] == "phi" and all(symx.const_magnitude(l) == 1.0 for _, l in phi_leaves(y))) for y in rest)
+    if not ok_out:
+        rep.inconcl("R-BISECT", site, "the returned E is not +-(the bisection iterate): something else is applied after the loop")
+        return
+    # signs: X_k = m - (E_{k-1} - e sin E_{k-1})
+    def ids(mono):
+        return sorted((tuple(sorted(id(f) if f != T.PI else 0 for f in fac_)), c) for fac_, c in mono)
+    m_atom = None
+    for k in range(1, n + 1):
+        X = parts[k][1][3]
+        mono = symx._expand_sum(X if X[0] == "add" else T.add(X, T.ZERO))
+        if mono is None:
+            rep.inconcl("R-BISECT", site, "sign of step %d not analysable" % k)
+            return
+        prev = [((T.PI,), Fraction(1, 2))] + [((T.PI, parts[j][1]), parts[j][0]) for j in range(1, k)]
+        want_neg = ids([(f_, -c_) for f_, c_ in prev])
+        got = ids(mono)
+        rest = [g_ for g_ in got if g_ not in want_neg]
+        if len([g_ for g_ in got if g_ in want_neg]) != len(want_neg) or len(rest) != 2:
+            rep.inconcl("R-BISECT", site, "step %d: the sign is not taken from m - (E_prev - e sin E_prev)" % k)
+            return
+        # the two remaining monomials: +m (one atom) and + e * sin(E_prev)
+        sin_m = [(fac_, c) for fac_, c in mono if any(f[0] == "call" and f[1] == "sin" for f in fac_)]
+        m_m = [(fac_, c) for fac_, c in mono if len(fac_) == 1 and c == 1 and not (fac_[0][0] == "call" and fac_[0][1] == "sin") and fac_[0] != T.PI]
+        if len(sin_m) != 1 or len(m_m) != 1 or sin_m[0][1] != 1 or len(sin_m[0][0]) != 2 or ECC not in sin_m[0][0]:
+            rep.inconcl("R-BISECT", site, "step %d: the sign is not taken from m - (E_prev - e sin E_prev)" % k)
+            return
+        sarg = [f for f in sin_m[0][0] if f != ECC][0][2]
+        amono = symx._expand_sum(sarg if sarg[0] == "add" else T.add(sarg, T.ZERO))
+        if amono is None or ids(amono) != ids(prev):
+            rep.inconcl("R-BISECT", site, "step %d: sin is not evaluated at the previous iterate" % k)
+            return
+        if m_atom is None:
+            m_atom = m_m[0][0][0]
+        elif m_atom is not m_m[0][0][0]:
+            rep.inconcl("R-BISECT", site, "step %d compares with a different mean anomaly term" % k)
+            return
+    bound = 360 * float(parts[n][0])
+    if bound <= 5e-8:
+        rep.ok("R-BISECT", site, "E = +-(pi/2 + sum of %d halving steps, each towards the root of E - e sin E = m): |E - E*| <= pi/2^%d, residual of Kepler's equation "
+               "<= %.3g deg <= 5e-8 deg for every e in [0, 1) and every M (exact real arithmetic)" % (n, n + 1, bound), obligation=True)
+    elif bound / 8 > 5e-8:
+        # the last iterate is off the root by up to pi/2^(n+1), uniformly over M; where g' ~ 1 + e (E near pi) the residual is that error times (1 + e):
+        # a bound 8 times the tolerance means the tolerance is exceeded for most M
+        rep.violation("R-BISECT", site, "resolution", "the bisection stops after %d steps at a bracket of pi/2^%d: the residual of Kepler's equation is only bounded by %.3g deg "
+                      "and reaches a large fraction of that for mean anomalies in the second quadrant; the property asks 5e-8 deg" % (n, n + 1, bound), obligation=True)
+    else:
+        rep.inconcl("R-BISECT", site, "bisection of %d steps: residual bound %.3g deg, neither below 5e-8 deg nor far enough above it to be sure it is exceeded" % (n, bound))
+
+
 def kepler_rules(repo, rep):
     """D1 / D5 (also used by C07, whose 'through Kepler's equation' clause rests on this solver): true anomaly from the returned
     eccentric anomaly, reduction of the mean anomaly and sign bookkeeping"""
@@ -347,13 +469,15 @@ def kepler_rules(repo, rep):
 def run(repo, rep, tier):
     rep.decided = ["D1 true-anomaly relation and its reciprocal", "D2 vis-viva identities", "D3 k == (1 + cos i)/2",
                    "D4 node-passage relations (elliptic and parabolic)", "D5 sign bookkeeping of the anomaly reduction; radians"]
-    rep.undecided = ["convergence and 5e-8 deg residual of the bisection", "half-revolution clause at runtime"]
+    rep.undecided = ["float rounding inside the bisection (the exact-arithmetic residual bound is proved: R-BISECT)", "half-revolution clause at runtime"]
+    rep.decided.append("D7 Kepler's equation solved: the returned E is the n-step bisection of E - e sin E = m, residual <= 360/2^(n+1) deg <= 5e-8 deg for every e in [0, 1), every M (R-BISECT)")
     rep.decided.append("D6 orbit length: both closed forms within [2 pi b, 2 pi a], accurate to 1e-4 up to and at the switch (jump <= 2e-4)")
     rep.assumptions = ["exact real arithmetic"]
     rep.rule("R-E4-ID", "algebraic identity / term match")
     alg = Algebra()
     # ---- D1 / D5 kepler_equation
     kepler_rules(repo, rep)
+    bisect_proof(repo, rep)
     # ---- D2 vis-viva
     for f_ in ("velocity", "velocity_perihelion", "velocity_aphelion"):
         rep.fn(MOD, f_)
